@@ -109,6 +109,9 @@ type Script struct {
 	// NoHook: the stream state does not implement StreamCanceller (a cancel
 	// must still end the stream with no further turn).
 	NoHook bool `json:"nh,omitempty"`
+	// CancelFail: what the state's cancel hook does after recording the call:
+	// "" (returns nil) | "error" | "panic". Neither is reported to the client.
+	CancelFail string `json:"cf,omitempty"`
 	// Tail: what a producer does after Turns are exhausted is always finish;
 	// what an exchange does after Turns are exhausted is emit.
 }
@@ -234,6 +237,7 @@ func GenStreamScript(t *simkern.Tape, nonce int64, kind string, o GenOpts) *Scri
 	s.Dyn2 = t.Bool(1, 2) // only read by the dynamic method
 	if o.NoHook {
 		s.NoHook = t.Bool(1, 3)
+		s.CancelFail = []string{"", "", "error", "panic"}[t.Draw(4)]
 	}
 	if o.MaxTurns <= 0 {
 		o.MaxTurns = 6
